@@ -228,4 +228,325 @@ theorem binarySearchBy_partition (f : α → Outcome ε Ordering) (l : List α) 
 
 end bsearch
 
+
+/-! ### ascending paths -/
+
+/-- strictly ascending terminal paths -/
+def AscPaths (paths : List (MultiPathProof VH)) : Prop :=
+  paths.Pairwise (fun p q => bitsLt p.terminal.path q.terminal.path = true)
+
+theorem pathsAscending_pairwise : ∀ (paths : List (MultiPathProof VH)),
+    pathsAscending paths = true → AscPaths paths
+  | [], _ => List.Pairwise.nil
+  | [_], _ => by simp [AscPaths]
+  | a :: b :: rest, h => by
+    simp only [pathsAscending, bitsLe, Bool.not_not, Bool.and_eq_true] at h
+    have ih : AscPaths (b :: rest) := pathsAscending_pairwise (b :: rest) h.2
+    unfold AscPaths at ih ⊢
+    refine List.pairwise_cons.2 ⟨?_, ih⟩
+    intro q hq
+    rcases List.mem_cons.1 hq with hq | hq
+    · subst hq; exact h.1
+    · exact bitsLt_trans _ _ _ h.1 ((List.pairwise_cons.1 ih).1 q hq)
+
+/-! ### depth bounds implied by a successful `verify_range` -/
+
+theorem verifyRange_depths :
+    ∀ (fuel : Nat) (pos : List Bool) (sd : Nat) (paths : List (MultiPathProof VH)) (sibs : List Node)
+      (off : Nat) (r : RangeOut Node VH),
+      verifyRange H fuel pos sd paths sibs off = .ok r →
+      ∀ p ∈ paths, sd ≤ p.depth ∧ p.depth ≤ p.terminal.path.length := by
+  intro fuel
+  induction fuel with
+  | zero => intro pos sd paths sibs off r h; simp [verifyRange] at h
+  | succ fuel ih =>
+    intro pos sd paths sibs off r h p hp
+    unfold verifyRange at h
+    match paths, h, hp with
+    | [], _, hp => simp at hp
+    | [tp], h, hp =>
+      simp only at h
+      obtain ⟨ul, h1, h⟩ := Outcome.bind_eq_ok h
+      obtain ⟨seg, h2, h⟩ := Outcome.bind_eq_ok h
+      simp only [List.mem_singleton] at hp
+      subst hp
+      obtain ⟨hle, hul⟩ := checkedSub_ok h1
+      obtain ⟨_, hb, _⟩ := sliceFromTo_ok h2
+      exact ⟨hle, by omega⟩
+    | first :: p2 :: rest, h, hp =>
+      simp only at h
+      obtain ⟨a, h1, h⟩ := Outcome.bind_eq_ok h
+      obtain ⟨b, h2, h⟩ := Outcome.bind_eq_ok h
+      obtain ⟨sr, h3, h⟩ := Outcome.bind_eq_ok h
+      obtain ⟨idx, h4, h⟩ := Outcome.bind_eq_ok h
+      obtain ⟨ls, h5, h⟩ := Outcome.bind_eq_ok h
+      obtain ⟨l, h6, h⟩ := Outcome.bind_eq_ok h
+      obtain ⟨rs, h7, h⟩ := Outcome.bind_eq_ok h
+      obtain ⟨rr, h8, h⟩ := Outcome.bind_eq_ok h
+      rw [← List.take_append_drop idx (first :: p2 :: rest)] at hp
+      rcases List.mem_append.1 hp with hin | hin
+      · have := ih _ _ _ _ _ _ h6 p hin
+        exact ⟨by omega, this.2⟩
+      · have := ih _ _ _ _ _ _ h8 p hin
+        exact ⟨by omega, this.2⟩
+
+
+/-! ### alignment -/
+
+theorem pairwise_getLast {α : Type} {R : α → α → Prop} : ∀ (l : List α) (h : l ≠ []), l.Pairwise R →
+    ∀ x ∈ l, x = l.getLast h ∨ R x (l.getLast h)
+  | [a], _, _, x, hx => by
+    simp only [List.mem_singleton] at hx
+    left; simp [hx]
+  | a :: b :: rest, _, hp, x, hx => by
+    rw [List.getLast_cons (by simp : b :: rest ≠ [])]
+    obtain ⟨ha, hp'⟩ := List.pairwise_cons.1 hp
+    rcases List.mem_cons.1 hx with hx | hx
+    · right; subst hx; exact ha _ (List.getLast_mem _)
+    · exact pairwise_getLast (b :: rest) _ hp' x hx
+
+theorem getElem?_of_lt_length (l : List Bool) (c : Nat) (h : c < l.length) : l[c]? = some (l.getD c false) := by
+  simp [List.getD, List.getElem?_eq_getElem h]
+
+/-- **alignment**: on ascending paths that share the range's position, a successful `verify_range` hashes
+every terminal along the first `depth` bits of its own path. -/
+theorem verifyRange_aligned :
+    ∀ (fuel : Nat) (pos : List Bool) (sd : Nat) (paths : List (MultiPathProof VH)) (sibs : List Node)
+      (off : Nat) (r : RangeOut Node VH),
+      verifyRange H fuel pos sd paths sibs off = .ok r →
+      pos.length = sd → (∀ p ∈ paths, p.terminal.path.take sd = pos) → AscPaths paths →
+      (paths = [] → pos = []) →
+      ∀ vp ∈ r.paths, vp.aligned := by
+  intro fuel
+  induction fuel with
+  | zero => intro pos sd paths sibs off r h; simp [verifyRange] at h
+  | succ fuel ih =>
+    intro pos sd paths sibs off r h hpos hpre hasc hemp vp hvp
+    unfold verifyRange at h
+    match paths, h, hpre, hasc, hemp with
+    | [], h, _, _, hemp =>
+      simp only at h
+      injection h with h; subst h
+      simp only [List.mem_singleton] at hvp
+      subst hvp
+      simp [VPath.aligned, hemp rfl, Terminal.path]
+    | [tp], h, hpre, _, _ =>
+      simp only at h
+      obtain ⟨ul, h1, h⟩ := Outcome.bind_eq_ok h
+      obtain ⟨seg, h2, h⟩ := Outcome.bind_eq_ok h
+      obtain ⟨us, h3, h⟩ := Outcome.bind_eq_ok h
+      simp only [Outcome.pure_eq] at h
+      injection h with h; subst h
+      simp only [List.mem_singleton] at hvp
+      subst hvp
+      obtain ⟨hle, hul⟩ := checkedSub_ok h1
+      obtain ⟨_, hb, hseg⟩ := sliceFromTo_ok h2
+      simp only [VPath.aligned]
+      have hp := hpre tp (by simp)
+      have e : tp.depth = sd + (tp.depth - sd) := by omega
+      rw [e, List.take_add, hp, hseg, hul]
+      have : sd + (tp.depth - sd) - sd = tp.depth - sd := by omega
+      rw [this]
+    | first :: p2 :: rest, h, hpre, hasc, _ =>
+      simp only at h
+      obtain ⟨a, h1, h⟩ := Outcome.bind_eq_ok h
+      obtain ⟨b, h2, h⟩ := Outcome.bind_eq_ok h
+      obtain ⟨sr, h3, h⟩ := Outcome.bind_eq_ok h
+      obtain ⟨idx, h4, h⟩ := Outcome.bind_eq_ok h
+      obtain ⟨ls, h5, h⟩ := Outcome.bind_eq_ok h
+      obtain ⟨l, h6, h⟩ := Outcome.bind_eq_ok h
+      obtain ⟨rs, h7, h⟩ := Outcome.bind_eq_ok h
+      obtain ⟨rr, h8, h⟩ := Outcome.bind_eq_ok h
+      simp only [Outcome.pure_eq] at h
+      injection h with h; subst h
+      simp only at hvp
+      -- names
+      obtain ⟨hsd1, ha⟩ := sliceFrom_ok h1
+      obtain ⟨hsd2, hb⟩ := sliceFrom_ok h2
+      generalize hP : first :: p2 :: rest = P at *
+      generalize hlast : (p2 :: rest).getLast (by simp) = last at *
+      have hfirstP : first ∈ P := by rw [← hP]; simp
+      have hlastP : last ∈ P := by
+        rw [← hP, ← hlast]; exact List.mem_cons_of_mem _ (List.getLast_mem _)
+      generalize hcb : shared a b = cb at *
+      have hcl1 : sd + cb + 1 - 1 = sd + cb := by omega
+      rw [hcl1] at h3
+      -- depth bounds from the two recursive calls
+      have hD : ∀ p ∈ P, sd + cb < p.terminal.path.length := by
+        intro p hp
+        rw [← List.take_append_drop idx P] at hp
+        rcases List.mem_append.1 hp with hin | hin
+        · have := verifyRange_depths H _ _ _ _ _ _ _ h6 p hin; omega
+        · have := verifyRange_depths H _ _ _ _ _ _ _ h8 p hin; omega
+      -- order facts
+      have hasc' : AscPaths (first :: p2 :: rest) := by rw [hP]; exact hasc
+      obtain ⟨hfirst_lt, hasc2⟩ := List.pairwise_cons.1 hasc'
+      have hfirst_le : ∀ p ∈ P, bitsLeq first.terminal.path p.terminal.path := by
+        intro p hp
+        rw [← hP] at hp
+        rcases List.mem_cons.1 hp with hp | hp
+        · left; rw [hp]
+        · right; exact hfirst_lt p hp
+      have hle_last : ∀ p ∈ P, bitsLeq p.terminal.path last.terminal.path := by
+        intro p hp
+        rw [← hP] at hp
+        rcases List.mem_cons.1 hp with hp | hp
+        · right; rw [hp]; apply hfirst_lt; rw [← hlast]; exact List.getLast_mem _
+        · rcases pairwise_getLast (p2 :: rest) (by simp) hasc2 p hp with h | h
+          · left; rw [h, hlast]
+          · right; rw [hlast] at h; exact h
+      -- common prefix of length sd + cb
+      have hpre_first := hpre first hfirstP
+      have hpre_last := hpre last hlastP
+      have hcom : first.terminal.path.take (sd + cb) = last.terminal.path.take (sd + cb) := by
+        rw [List.take_add, List.take_add, hpre_first, hpre_last, ← ha, ← hb, ← hcb, shared_take a b]
+      have hall : ∀ p ∈ P, p.terminal.path.take (sd + cb) = first.terminal.path.take (sd + cb) := by
+        intro p hp
+        exact take_of_between (sd + cb) _ _ _ (by have := hD first hfirstP; omega) hcom
+          (hfirst_le p hp) (hle_last p hp)
+      -- the search predicate
+      let g : MultiPathProof VH → Bool := fun p => p.terminal.path.getD (sd + cb) false
+      have hbit : ∀ p ∈ P, p.terminal.path[sd + cb]? = some (g p) := fun p hp =>
+        getElem?_of_lt_length _ _ (hD p hp)
+      have hf : ∀ x ∈ P, bisectCmp (sd + cb) x = .ok (if !g x then .lt else .gt) := by
+        intro x hx
+        simp only [bisectCmp, hbit x hx]
+      have hascP : ∀ (i j : Nat) (x y : MultiPathProof VH), i < j → P[i]? = some x → P[j]? = some y →
+          bitsLt x.terminal.path y.terminal.path = true := by
+        intro i j x y hij hx hy
+        obtain ⟨hi, hxi⟩ := List.getElem?_eq_some_iff.1 hx
+        obtain ⟨hj, hyj⟩ := List.getElem?_eq_some_iff.1 hy
+        have := (List.pairwise_iff_getElem.1 hasc) i j hi hj hij
+        rw [hxi, hyj] at this; exact this
+      have hmono : ∀ (i j : Nat) (x y : MultiPathProof VH), i < j → P[i]? = some x → P[j]? = some y →
+          g x = true → g y = true := by
+        intro i j x y hij hx hy hgx
+        have hxP : x ∈ P := List.mem_of_getElem? hx
+        have hyP : y ∈ P := List.mem_of_getElem? hy
+        have hlt := hascP i j x y hij hx hy
+        have hnb := bitsLt_bit (sd + cb) _ _ ((hall x hxP).trans (hall y hyP).symm) hlt
+        cases hgy : g y with
+        | true => rfl
+        | false =>
+          exfalso; apply hnb
+          rw [hbit x hxP, hbit y hyP, hgx, hgy]; exact ⟨rfl, rfl⟩
+      obtain ⟨idx', hbs, hidxle, hlo, hhi⟩ := binarySearchBy_partition _ P g hf hmono
+      rw [hbs] at h3
+      injection h3 with h3; subst h3
+      simp only [Outcome.pure_eq] at h4
+      injection h4 with h4; subst h4
+      -- first has bit 0, last has bit 1
+      have hgf : g first = false ∧ g last = true := by
+        have h0 : a[cb]? = some (g first) := by
+          rw [ha, List.getElem?_drop]; exact hbit first hfirstP
+        have h1' : b[cb]? = some (g last) := by
+          rw [hb, List.getElem?_drop]; exact hbit last hlastP
+        rw [← hcb] at h0 h1'
+        have hne := shared_differ a b _ _ h0 h1'
+        have hlt : bitsLt first.terminal.path last.terminal.path = true := by
+          apply hfirst_lt; rw [← hlast]; exact List.getLast_mem _
+        have hnb := bitsLt_bit (sd + cb) _ _ hcom hlt
+        rw [hbit first hfirstP, hbit last hlastP] at hnb
+        cases hg1 : g first <;> cases hg2 : g last <;> simp_all
+      have hP0 : P[0]? = some first := by rw [← hP]; rfl
+      have hidx0 : 0 < idx' := by
+        rcases Nat.eq_zero_or_pos idx' with h0 | h0
+        · have := hhi 0 first (by omega) hP0
+          rw [hgf.1] at this; cases this
+        · exact h0
+      have hidxlt : idx' < P.length := by
+        obtain ⟨j, hj⟩ := List.mem_iff_getElem?.1 hlastP
+        have hjl := (List.getElem?_eq_some_iff.1 hj).1
+        rcases Nat.lt_or_ge j idx' with hlt | hge
+        · have := hlo j last hlt hj
+          rw [hgf.2] at this; cases this
+        · omega
+      have hfseg : (a.take cb).length = cb := by
+        have := shared_le_left a b
+        simp; omega
+      have hfirst_cl : first.terminal.path.take (sd + cb) = pos ++ a.take cb := by
+        rw [List.take_add, hpre_first, ← ha]
+      have hpre' : ∀ (bit : Bool) (p : MultiPathProof VH), p ∈ P → g p = bit →
+          p.terminal.path.take (sd + cb + 1) = pos ++ a.take cb ++ [bit] := by
+        intro bit p hp hg
+        rw [List.take_add_one, hall p hp, hfirst_cl, hbit p hp, hg]; rfl
+      rcases List.mem_append.1 hvp with hin | hin
+      · apply ih _ _ _ _ _ _ h6 (by simp [hfseg, hpos]; omega) ?_ (List.Pairwise.sublist (List.take_sublist _ _) hasc) ?_ vp hin
+        · intro p hp
+          obtain ⟨j, hj, hpj⟩ := List.mem_take_iff_getElem.1 hp
+          have hjl : j < P.length := by
+            have := Nat.min_le_right idx' P.length; omega
+          have hjP : P[j]? = some p := by rw [List.getElem?_eq_getElem hjl, hpj]
+          exact hpre' false p (List.mem_of_getElem? hjP) (hlo j p (by
+            have := Nat.min_le_left idx' P.length; omega) hjP)
+        · intro hnil
+          have : (List.take idx' P).length = 0 := by rw [hnil]; rfl
+          rw [List.length_take] at this
+          omega
+      · apply ih _ _ _ _ _ _ h8 (by simp [hfseg, hpos]; omega) ?_ (List.Pairwise.sublist (List.drop_sublist _ _) hasc) ?_ vp hin
+        · intro p hp
+          obtain ⟨j, hj⟩ := List.mem_iff_getElem?.1 hp
+          rw [List.getElem?_drop] at hj
+          exact hpre' true p (List.mem_of_getElem? hj) (hhi _ p (by omega) hj)
+        · intro hnil
+          have : (List.drop idx' P).length = 0 := by rw [hnil]; rfl
+          rw [List.length_drop] at this
+          omega
+
+/-- every path of an accepted multi-proof is aligned -/
+theorem verifyMulti_aligned (mp : MultiProof Node VH) (root : Node) (v : VerifiedMulti Node VH)
+    (hv : verifyMulti H mp root = .ok v) : ∀ vp ∈ v.inner, vp.aligned := by
+  obtain ⟨hasc, r, hr, _, _, hinner, _⟩ := verifyMulti_ok H mp root v hv
+  rw [hinner]
+  exact verifyRange_aligned H _ [] 0 mp.paths mp.siblings 0 r hr rfl (by intro p _; simp)
+    (pathsAscending_pairwise mp.paths hasc) (fun _ => rfl)
+
+
+/-- the depth of a verified path does not exceed its terminal path (the slice succeeded) -/
+theorem verifyRange_vdepths :
+    ∀ (fuel : Nat) (pos : List Bool) (sd : Nat) (paths : List (MultiPathProof VH)) (sibs : List Node)
+      (off : Nat) (r : RangeOut Node VH),
+      verifyRange H fuel pos sd paths sibs off = .ok r →
+      ∀ vp ∈ r.paths, vp.depth ≤ vp.terminal.path.length := by
+  intro fuel
+  induction fuel with
+  | zero => intro pos sd paths sibs off r h; simp [verifyRange] at h
+  | succ fuel ih =>
+    intro pos sd paths sibs off r h vp hvp
+    unfold verifyRange at h
+    match paths, h with
+    | [], h =>
+      simp only at h
+      injection h with h; subst h
+      simp only [List.mem_singleton] at hvp
+      subst hvp; simp
+    | [tp], h =>
+      simp only at h
+      obtain ⟨ul, h1, h⟩ := Outcome.bind_eq_ok h
+      obtain ⟨seg, h2, h⟩ := Outcome.bind_eq_ok h
+      obtain ⟨us, h3, h⟩ := Outcome.bind_eq_ok h
+      simp only [Outcome.pure_eq] at h
+      injection h with h; subst h
+      simp only [List.mem_singleton] at hvp
+      subst hvp
+      obtain ⟨hle, hul⟩ := checkedSub_ok h1
+      obtain ⟨_, hb, _⟩ := sliceFromTo_ok h2
+      simp only; omega
+    | first :: p2 :: rest, h =>
+      simp only at h
+      obtain ⟨a, h1, h⟩ := Outcome.bind_eq_ok h
+      obtain ⟨b, h2, h⟩ := Outcome.bind_eq_ok h
+      obtain ⟨sr, h3, h⟩ := Outcome.bind_eq_ok h
+      obtain ⟨idx, h4, h⟩ := Outcome.bind_eq_ok h
+      obtain ⟨ls, h5, h⟩ := Outcome.bind_eq_ok h
+      obtain ⟨l, h6, h⟩ := Outcome.bind_eq_ok h
+      obtain ⟨rs, h7, h⟩ := Outcome.bind_eq_ok h
+      obtain ⟨rr, h8, h⟩ := Outcome.bind_eq_ok h
+      simp only [Outcome.pure_eq] at h
+      injection h with h; subst h
+      simp only at hvp
+      rcases List.mem_append.1 hvp with hin | hin
+      · exact ih _ _ _ _ _ _ h6 vp hin
+      · exact ih _ _ _ _ _ _ h8 vp hin
+
 end Nomt
